@@ -5,7 +5,12 @@ from typing import Any, Callable, Dict, List, Type
 from spec_classes.errors import FrozenInstanceError
 from spec_classes.methods.base import AttrMethodDescriptor
 from spec_classes.types import MISSING, Attr
-from spec_classes.utils.mutation import mutate_value, peek_attr, protect_via_deepcopy
+from spec_classes.utils.mutation import (
+    mutate_value,
+    peek_attr,
+    protect_via_deepcopy,
+    resolve_preparer,
+)
 from spec_classes.utils.type_checking import (
     check_type,
     type_instantiate,
@@ -97,8 +102,9 @@ class CollectionAttrMutator(metaclass=ABCMeta):
         but before we fallback to constructors and/or apply passed attributes
         and transforms.
         """
-        if self.attr_spec.prepare_item:
-            new_item = self.attr_spec.prepare_item(self.instance, new_item)
+        prepare_item = resolve_preparer(self.attr_spec, self.instance, item=True)
+        if prepare_item:
+            new_item = prepare_item(self.instance, new_item)
         if (  # Convert to spec-class if key was provided.
             self.attr_spec.item_spec_key_type
             and new_item is not MISSING
